@@ -340,6 +340,28 @@ theorem probeFresh_stamp {w : Worker} {p : Probe} {now : Nat} (hlt : p.stamp < n
     simp only [Bool.or_eq_false_iff, Bool.not_eq_eq_eq_not, Bool.not_false] at this
     exact this.1
 
+/-- A probe result that is not fresh (failed, empty-and-unbooted, or stale) leaves both maps alone
+and records no exit — for any worker, without any well-formedness assumption. -/
+theorem probeApply_not_fresh (w : Worker) (p : Probe) (now : Nat) (h : probeFresh w p now = false) :
+    (w.probeApply p now).1.running = w.running ∧ (w.probeApply p now).1.starting = w.starting ∧
+    (w.probeApply p now).2 = [] := by
+  unfold probeApply
+  unfold probeFresh at h
+  dsimp only
+  obtain ⟨hr1, hs1, _⟩ := drainStep_spec w p now
+  generalize (w.drainStep p now) = w1 at hr1 hs1 h
+  by_cases hfail : w1.probeFailed p = true
+  · rw [if_pos hfail]
+    obtain ⟨f1, f2, _⟩ := applyFailed_spec w1 p now
+    exact ⟨f1.trans hr1, f2.trans hs1, rfl⟩
+  · rw [if_neg hfail]
+    simp only [Bool.not_eq_true] at hfail
+    rw [hfail] at h
+    simp only [Bool.not_false, Bool.true_and, beq_eq_false_iff_ne, ne_eq] at h
+    have : (p.stamp != w1.updated) = true := by simpa using h
+    rw [if_pos this]
+    exact ⟨hr1, hs1, rfl⟩
+
 /-- **What a probe does to the bookkeeping.** Either the result is not used — `running` and
 `starting` are untouched, no exit is recorded, the state stays or becomes Shutdown — or it is
 fresh and then `running` becomes exactly the reported set. -/
